@@ -114,7 +114,7 @@ pub fn run(cfg: &RunCfg) -> PropRun {
     );
     run.absorb(out);
     run.stats.exhaustive_subspaces.push(json!({"name": "single intervals over an adjacent 6-version chain, all bound kinds", "intervals": n, "ordered_pairs": n * n}));
-    let out = campaign(cfg, ID, "pairs", cfg.pick(200_000, 3_000_000), strategy, check_pair);
+    let out = campaign(cfg, ID, "pairs", cfg.pick(400_000, 4_000_000), strategy, check_pair);
     run.absorb(out);
     run
 }
